@@ -39,7 +39,7 @@ CLAIMED = {
                 '(8) en-passant mask tables and guard; (9) every fresh en-passant store is normalised as readFEN does. Three genuine violations on the pinned '
                 'tree are listed in known_findings.json (compact form: 8-bit clock, 16-bit move number; makeMove keeps an illegal en-passant square). Right level: "after any history the '
                 'incremental value equals the recomputed one" holds iff every mutator updates every derived attribute consistently - a '
-                'finite set of structural obligations that cover every history, where a random walk samples.',
+                'finite set of structural obligations that cover every history, where a random walk samples. (10) one-argument setters of Position store their argument unchanged.',
         'design_ref': 'DESIGN.md section 2, C02',
         'note': TB + ' Does not decide value-level equalities (hash equality of rule-equal positions beyond the en-passant normal form).',
         'technique': 'custom static analysis: write-set/effect analysis, colour-mirror and sibling agreement on CFG regions, dominance-based save/restore and pairing, constant evaluation over the material polytope',
@@ -66,7 +66,7 @@ CLAIMED = {
                 'TT ply shift (store at p1, read at p2), the win/loss classification and the 16-bit range. This is a genuine necessary '
                 'condition of "mate N means mate in N": any disagreement between an encoder and a decoder shifts every announced '
                 'distance. Second clause (K3 typestate): a score found by searching after a null move never leaves negaScout (return, hash store, search-tree info) unless it was shown not to be a win score or replaced by a non-win bound. Right level for the first clause: a finite arithmetic agreement; that a reported mate exists at all is game-tree '
-                'semantics and is not claimed. Added clauses (4) bound-type discipline of adopted entry scores and isCutOff, (5) ply-shift codec and decode / re-store ply agreement (shared with C08).',
+                'semantics and is not claimed. Added clauses (4) bound-type discipline of adopted entry scores and isCutOff, (5) ply-shift codec and decode / re-store ply agreement (shared with C08). (6) every hash store of negaScout happens only in an unrestricted search.',
         'design_ref': 'DESIGN.md section 2, C04',
         'note': TB + ' Decides only the encoding agreement, not the existence of the announced mates nor the soundness of pruning near mate scores.',
         'technique': 'custom static analysis: exhaustive constant evaluation of extracted expression trees over a finite domain (encoder/decoder composition)',
@@ -84,7 +84,7 @@ CLAIMED = {
                 'including ponder + ponderhit (found and fixed defect D11); (13) lock discipline of the session output stream: every '
                 'insertion holds one common mutex, which is never re-acquired or held across a wait (found and fixed defect D10). '
                 'Right level: these are exactly the failure shapes the property names (crash before initialisation, two/zero '
-                'bestmoves, output after bestmove), and they are visible in the shape of the code for all histories at once. C05.5 now decides that every way out of the protocol loop stops a running search (state flow); (14) every strength-limiting parameter forces a single search thread.',
+                'bestmoves, output after bestmove), and they are visible in the shape of the code for all histories at once. C05.5 now decides that every way out of the protocol loop stops a running search (state flow); (14) every strength-limiting parameter forces a single search thread. (15) wait loops poll with a handler that counts the acknowledgements (shared with C10.10).',
         'design_ref': 'DESIGN.md section 2, C05',
         'note': TB + ' Assumes: bad_alloc from ordinary allocation and the embedded-network integrity error are out of scope (named exemptions).',
         'technique': 'custom static analysis: null typestate dataflow + exception-flow + must-pass-through/who-may-call over clang AST/CFG/call graph',
@@ -131,7 +131,7 @@ CLAIMED = {
                 '(6) index bound: floor-halving loop lemma for setUsedSize + exact constant evaluation of getIndex at the extreme key '
                 'for every (topBits, shift) of the domain gives idx+3 < topBits*2^shift <= usedSize (all sizes >= 512 entries, all keys). '
                 'Right level: "never a blend", "inside the table for every size and key" quantify over schedules/sizes/keys; the type, '
-                'codec and arithmetic obligations cover them all at once where a stress test samples. Added clauses: region agreement of byteSize(), (8) key comparisons of the replaced entry precede the overwrite of its key.',
+                'codec and arithmetic obligations cover them all at once where a stress test samples. Added clauses: region agreement of byteSize(), (8) key comparisons of the replaced entry precede the overwrite of its key. (9) reSize keeps the class invariant at every point that may throw.',
         'design_ref': 'DESIGN.md section 2, C08',
         'note': TB + ' Does not decide torn-read freedom beyond "atomics + xor validation are in place" (memory-model argument).',
         'technique': 'custom static analysis: who-may-access + index provenance + sibling/inverse agreement + constant evaluation over finite parameter domains with a loop-idiom lemma',
@@ -147,7 +147,7 @@ CLAIMED = {
                 'The options hand-over is decided by the completion-flag typestate (optionsSetFinished set only under the mutex with the pending queue and every swapped-out batch known empty). '
                 'variables written after start-up. Right level: race freedom quantifies over all interleavings; a discipline check is '
                 'interleaving-independent and covers code paths a TSan run never executes. It decides the discipline, not the memory-model '
-                'theorem: rows justified by message-protocol ordering are listed as assumptions. Added clause (6): in Communicator::poll every unlocked walk of children is followed by a lock acquisition (the release that orders it before removeChild).',
+                'theorem: rows justified by message-protocol ordering are listed as assumptions. Added clause (6): in Communicator::poll every unlocked walk of children is followed by a lock acquisition (the release that orders it before removeChild). (7) option-reading calls on the go paths come after waitOptionsSet (shared with C06.4).',
         'design_ref': 'DESIGN.md section 2, C09 and Appendix A',
         'note': TB + ' Does not decide race freedom in the C++ memory-model sense for the whole engine; HB-protocol rows are assumptions (listed in the evidence).',
         'technique': 'custom static analysis: lock-set dataflow (K6), field-type obligations (K7), thread-role call-graph reachability (K8), dominance-based publication checks (K2), frozen who-may-write table for static storage (K5)',
@@ -162,7 +162,7 @@ CLAIMED = {
                 'ack->poll until acknowledged, quit->poll until acknowledged, flag-sensitive "a search that ran is stopped"; (6) a wake-up '
                 'consumed by the engine thread\'s inner wait loop is re-armed or pending options are handled before it sleeps again; (7) the completion-flag typestate of optionsSetFinished (shared with C09.4). Right '
                 'level: these are the necessary structural conditions of "no lost wake-up / no stale result" for every interleaving; the '
-                'composed liveness property itself is model-checking territory and is not claimed. Added clause (9): the upward acknowledgement is sent only under a test of everything has<X>Ack() depends on.',
+                'composed liveness property itself is model-checking territory and is not claimed. Added clause (9): the upward acknowledgement is sent only under a test of everything has<X>Ack() depends on. (10) agreement between acknowledgement wait loops and the handlers they poll with.',
         'design_ref': 'DESIGN.md section 2, C10',
         'note': TB + ' Does not decide absence of deadlock / lost wake-up over all interleavings of the composed protocol.',
         'technique': 'custom static analysis: lock-set dataflow, condition-variable discipline, must-pass-through / loop-shape rules on the CFG, sibling agreement of purge predicates',
@@ -202,7 +202,7 @@ CLAIMED = {
                 '(2) aggressive probing is enabled only on the updateTB() == true path and probes respect minProbeDepth; (3) the PV '
                 'extension appends tablebase moves only inside the 50-move limit and only moves that keep the tablebase score. Right '
                 'level: the "not announced beyond the limit" clause is a gate-agreement fact for all positions and clocks; exact distances '
-                'and move choice are value-level (C12) and not claimed. Added clauses (5) generator typestate (shared with C12.1) and (6) a freshly generated table is consulted before the clock can abort the search (found and fixed defect D16).',
+                'and move choice are value-level (C12) and not claimed. Added clauses (5) generator typestate (shared with C12.1) and (6) a freshly generated table is consulted before the clock can abort the search (found and fixed defect D16). (7) placement order of the probe index (shared with C12.8).',
         'design_ref': 'DESIGN.md section 2, C13',
         'note': TB + ' Does not decide exactness of reported distances or move choice.',
         'technique': 'custom static analysis: guard-set / sibling agreement of the probe blocks, constant evaluation of the margin function, dominance',
@@ -241,7 +241,7 @@ CLAIMED = {
                 'getMove; the built-in book promotion tables are inverse (constant evaluation over all codes); (3) a failed read zero-fills '
                 'exactly the bytes read before decoding, the binary search and the scan only touch indices inside the file, only entries '
                 'stored under the position key are offered. Right level: "for any file" quantifies over inputs; legality of the answer '
-                'follows from the validate-before-return structure for every file content. (4) the weight accumulator holds the largest total a file can produce and the random pick is defined for it (found and fixed defect D12). Added clause (5): file positions (entry count, indices, seek offset) are 64-bit quantities (found and fixed defect D15).',
+                'follows from the validate-before-return structure for every file content. (4) the weight accumulator holds the largest total a file can produce and the random pick is defined for it (found and fixed defect D12). Added clause (5): file positions (entry count, indices, seek offset) are 64-bit quantities (found and fixed defect D15). (6) the weighted pick chooses entry k for exactly weight(k) draws.',
         'design_ref': 'DESIGN.md section 2, C18',
         'note': TB + ' Assumes the legal move generator is correct (C01). Does not decide that a corrupt file never yields a legal-but-wrong move.',
         'technique': 'custom static analysis: validated-candidate typestate with per-iteration flag reset, dominance, inverse switch tables, constant evaluation, index-bound structure',
@@ -256,7 +256,7 @@ CLAIMED = {
                 'completeness of the path-error recompute set - the fields computePathError reads of the node itself / of its parents decide '
                 'which nodes updateScores must schedule when a recompute call reports a change (found and fixed defect D9). Right level: these are the structural necessary conditions of "links mutually '
                 'consistent", "save/reload reproduces the book" and "changes propagate"; the fixed-point equations themselves are '
-                'value-level over a DAG and are not claimed. Added: (2) the reader of the append-only backup log lets a later record replace the earlier one; (6) depth propagation completeness.',
+                'value-level over a DAG and are not claimed. Added: (2) the reader of the append-only backup log lets a later record replace the earlier one; (6) depth propagation completeness. (7) the parents of the node updateScores is called on are always recomputed.',
         'design_ref': 'DESIGN.md section 2, C19',
         'note': TB + ' Does not decide that scores are at the fixed point of the negamax / path-error / cost equations.',
         'technique': 'custom static analysis: call pairing on the CFG, who-may-write, sibling agreement of serialiser argument lists, snapshot/compare agreement',
